@@ -460,12 +460,14 @@ def _fitted(cls, *datasets):
 
 
 # ------------------------------------------------------------------------- refit oracle (real code only)
-def neutralise(m):
-    """undo the three recorded leaks on a univariate object (constructor options from __args__/__kwargs__)."""
-    for a in OVR + ('_constant_value',):
-        m.__dict__.pop(a, None)
+def neutralise(m, which=('override', 'bounds', 'size')):
+    """undo recorded leaks on a univariate object (constructor options from __args__/__kwargs__)."""
+    if 'override' in which:
+        for a in OVR + ('_constant_value',):
+            m.__dict__.pop(a, None)
     fresh = type(m)(*copy.deepcopy(getattr(m, '__args__', ())), **copy.deepcopy(getattr(m, '__kwargs__', {})))
-    for a in ('min', 'max', '_sample_size'):
+    attrs = (('min', 'max') if 'bounds' in which else ()) + (('_sample_size',) if 'size' in which else ())
+    for a in attrs:
         if hasattr(fresh, a):
             setattr(m, a, getattr(fresh, a))
 
@@ -481,7 +483,6 @@ def refit_oracle(ctx, cls, kw, descs, seed0, report=True):
         for i, d in enumerate(descs[:-1]):
             fit_pinned(m1, make_data(d), seed0 + i)
         m3 = copy.deepcopy(m1)
-        before = hidden(m1), const_override(m1)
         fit_pinned(m1, last, seed)
         m2 = build(cls, kw)
         fit_pinned(m2, last, seed)
@@ -494,18 +495,18 @@ def refit_oracle(ctx, cls, kw, descs, seed0, report=True):
     diffs = obs_diff(o1, o2)
     inp = {'class': cls.__name__, 'ctor': {k: repr(v) for k, v in kw.items()}, 'ctor_raw': kw, 'history': descs, 'seed0': seed0}
     obsd = {'differs': diffs, 'refit': _brief(o1), 'fresh': _brief(o2)}
-    # attribute the difference to the recorded leaks that are active on the object before the last fit
-    (hid, ov) = before
-    f0 = build(cls, kw)
-    last_const = len(np.unique(last)) == 1
+    # attribute the difference: a recorded leak is a cause iff undoing it alone changes what the refit gives
     causes = []
-    if ov is not None and not last_const:
-        causes.append(K_OVR)
-    if cls.__name__ == 'TruncatedGaussian' and not last_const and (not feq(hid['min'], f0.min) or not feq(hid['max'], f0.max)):
-        causes.append(K_BND)
-    if cls.__name__ == 'GaussianKDE' and hid['ss'] != f0._sample_size:
-        causes.append(K_KDE)
-    # with the recorded leaks undone the refit must be exact
+    for which, key in (('override', K_OVR), ('bounds', K_BND), ('size', K_KDE)):
+        mk = copy.deepcopy(m3)
+        neutralise(mk, (which,))
+        try:
+            fit_pinned(mk, last, seed)
+            if not obs_equal(observe(mk), o1):
+                causes.append(key)
+        except Exception:  # noqa
+            pass
+    # with all recorded leaks undone the refit must be exact
     neutralise(m3)
     try:
         fit_pinned(m3, last, seed)
@@ -1039,6 +1040,11 @@ def check_get_instance(ctx, lean):
                 problems.append('stored-args')
             if problems:
                 bad = bad or dict(where, problems=problems, real=config_view(g), lean=pred)
+                if 'options' in problems or 'class' in problems:
+                    ctx.fail_input('copulas.utils.get_instance', where, {'problems': problems, 'clone': config_view(g),
+                                                                         'expected': config_view(want)},
+                                   'get_instance builds the prototype\'s class with the requested / recorded options',
+                                   'get_instance:clone-not-configured-as-constructed')
                 if 'same-object' in problems or any(p.startswith('fit-state') for p in problems):
                     ctx.fail_input('copulas.utils.get_instance', where, {'problems': problems},
                                    'get_instance returns a NEW UNFITTED object', 'get_instance:prototype-state-leaks-into-clone')
